@@ -59,12 +59,26 @@ def assign_auto_stub():
     return {"oneliner.pending_nodes:PendingAssign.assign_auto": f}
 
 
+PURE_CLASSES = frozenset([ast.Name, ast.Constant])
+
+
 class EvalA(TL.Eval):
     """reading extended with the contract of assign_auto: evaluate the value, then perform
-    Assign(target, value)"""
+    Assign(target, value).  Source expressions that are known (on this path) to be a bare
+    name or a constant are PURE: evaluating them has no effect, so their position and
+    multiplicity are not observable and are left out of the comparison."""
+
+    def __init__(self, *a, **k):
+        super().__init__(*a, **k)
+        self.pure = set()
 
     def abstract(self, o):
         sem = o.props.get("sem")
+        if sem and sem[0] == "T" and isinstance(sem[2], Opaque) and (
+                (sem[2].cands and sem[2].cands <= PURE_CLASSES) or (o.cands and o.cands <= PURE_CLASSES)):
+            # (the transformation preserves the node class: a transformed node known to be
+            # a Constant/Name comes from a Constant/Name)
+            self.pure.add(tagstr(sem[2].tag))
         if sem and sem[0] == "assign":
             v = self.expr(sem[2])
             self.emit("assign", tagstr(sem[1].tag), v)
@@ -193,6 +207,25 @@ def check_destructure(R, nm, sig, p, shape):
             c.pc.pop()
     finally:
         sym.set_ctx(None)
+
+
+def drop_pure(tr, pure):
+    """remove evaluation events of pure source expressions (recursively)"""
+    out = []
+    for e in tr:
+        if e[0] == "ev" and e[2] in pure:
+            continue
+        if e[0] == "rep":
+            inner = drop_pure(e[4], pure)
+            if inner:
+                out.append(("rep", e[1], e[2], e[3], inner))
+        elif e[0] == "choice":
+            out.append(("choice", e[1], drop_pure(e[2], pure), drop_pure(e[3], pure)))
+        elif e[0] == "loop":
+            out.append(("loop", e[1], e[2], e[3], drop_pure(e[4], pure)))
+        else:
+            out.append(e)
+    return out
 
 
 def _provably_zero(c, n):
@@ -336,7 +369,8 @@ def _check_trace(R, base, paths, want, what, replay=None):
             except TL.NotInFragment as e:
                 R.undecided(f"{base}/reading/{sig}", str(e))
                 continue
-            got = TL.observable(ev.tr)
+            got = drop_pure(TL.observable(ev.tr), ev.pure)
+            want = drop_pure(want, ev.pure)
             why = []
             ok = pysem.trace_eq(p.ctx, got, want, why)
             R.check(f"{base}/stores-what-python-stores/{sig}", ok,
@@ -442,7 +476,8 @@ def g_augassign(R, tier):
                 elif kind == "subscript":
                     t = ast.Subscript(value=CL.src("obj"), slice=CL.src("idx", ast.expr, exclude=[ast.Slice]), ctx=ast.Store())
                 else:
-                    t = ast.Subscript(value=CL.src("obj"), slice=ast.Slice(lower=CL.src("lo"), upper=CL.src("up"), step=None), ctx=ast.Store())
+                    opt = lambda tag: None if c.branch(z3.Bool(f"{tag}.is_none")) else CL.src(tag)
+                    t = ast.Subscript(value=CL.src("obj"), slice=ast.Slice(lower=opt("lo"), upper=opt("up"), step=opt("st")), ctx=ast.Store())
                 node = ast.AugAssign(target=t, op=opcls(), value=CL.src("V"))
                 self_ = CL.mk_pending(pn.PendingAugAssign, node, nsp, CL.mk_global(), m=m)
                 return dict(res=m.call_value(pn.PendingAugAssign.get_result, self_))
@@ -519,9 +554,12 @@ def check_aug(R, nm, sig, p, kind, opcls, iop):
                 f"stores of the target on the {arm} arm: {st!r}; expected exactly one store of {result!r}",
                 replay=dict(kind="src", src="class A:\n    def __init__(self, v):\n        self.v = v\n    def __iadd__(self, o):\n        return A(self.v + o)\nx = A(1)\ny = x\nx += 1\nr = (x.v, y.v, x is y)\n", expect="same-globals"))
     # target object / index expressions evaluated exactly once (Language Reference 7.2.1)
-    for atom in {"name": [], "attribute": ["obj"], "subscript": ["obj", "idx"], "slice": ["obj", "lo", "up"]}[kind]:
+    for atom in {"name": [], "attribute": ["obj"], "subscript": ["obj", "idx"], "slice": ["obj", "lo", "up", "st"]}[kind]:
         n = sum(1 for e in flat if e[:3] == ("ev", "nsp", atom))
-        R.check(f"{nm}/target-part-evaluated-once/{atom}/{sig}", n == 1, f"{atom} evaluated {n} times",
+        absent, _ = c.valid(z3.Bool(f"{atom}.is_none")) if atom in ("lo", "up", "st") else (False, None)
+        if atom in ev.pure:
+            continue  # a bare name / constant: multiplicity is not observable
+        R.check(f"{nm}/target-part-evaluated-once/{atom}/{sig}", n == (0 if absent else 1), f"{atom} evaluated {n} times",
                 replay=dict(kind="src", src="log = []\nclass C:\n    x = 0\nc = C()\ndef f():\n    log.append('f')\n    return c\nf().x += 1\nr = (c.x, log)\n", expect="same-globals"))
 
 
